@@ -169,6 +169,10 @@ func (s *Sim) kubeletActions(faults bool) []Action {
 			add("kubelet.finalize "+key, func() { s.Store.Remove(objKey{KPod, p.Namespace, p.Name}) })
 			continue
 		}
+		if s.W.Cfg.Evictions && isAnyDaemonPod(p) {
+			// drained / evicted / deleted by a user: Terminating within its grace period, still Ready
+			add("admin.evict "+key, func() { _ = s.Store.Delete(KPod, p.Namespace, p.Name) })
+		}
 		if p.Status.Phase == corev1.PodFailed || p.Status.Phase == corev1.PodUnknown {
 			continue
 		}
@@ -465,6 +469,14 @@ func (s *Sim) userActions() []Action {
 			} else {
 				add("user.canary-strategy "+def.Key()+" +", func() { e.Spec.Strategy.Canary = def.Strategy.Canary.Object(); s.Store.ForceUpdate(e) })
 			}
+		}
+		if cfg.ModeEdits && e.Spec.Strategy.Canary != nil {
+			// only the mode is changed; the durations written by the defaulting stay
+			other := edsv1.ExtendedDaemonSetSpecStrategyCanaryValidationModeManual
+			if e.Spec.Strategy.Canary.ValidationMode == other {
+				other = edsv1.ExtendedDaemonSetSpecStrategyCanaryValidationModeAuto
+			}
+			add("user.validation-mode "+def.Key()+" "+string(other), func() { e.Spec.Strategy.Canary.ValidationMode = other; s.Store.ForceUpdate(e) })
 		}
 		if cfg.StrategyEdits {
 			add("user.reapply-spec "+def.Key(), func() { s.userReapply(def.NS, def.Name) })
